@@ -32,7 +32,7 @@ static std::vector<std::string> g_subjects;
 static int g_slice = 1;
 
 // cross-process counters (the MUTX workers are forked)
-struct Counters { volatile uint64_t patternsRun, inDomain, compared, matchCalls, setPatternFailed, uniquePatterns, uvPatterns, escapeRun, escapeOthers, segRun, segCompared; };
+struct Counters { volatile uint64_t patternsRun, inDomain, compared, matchCalls, setPatternFailed, uniquePatterns, uvPatterns, escapeRun, escapeOthers, segRun, segCompared, rangeRun, rangeCompared; };
 static Counters * g_cnt = NULL;
 #define ADD(field, n) __sync_fetch_and_add(&g_cnt->field, (uint64_t)(n))
 
@@ -106,6 +106,61 @@ static std::string PatternDesc(size_t i)
    const std::string pat = StrOfIndex(i, SIGMA_P, NP); const refmatch::Pattern r = refmatch::Parse(pat);
    return "{\"pattern\": " + verif::JStr(pat) + ", \"in_reference_domain\": " + (r.inDomain ? "true" : "false") + (r.inDomain ? "" : ", \"out_of_domain_because\": " + verif::JStr(r.why)) + verif::Fmt(", \"subjects\": %llu}", (unsigned long long)g_subjects.size());
 }
+
+// ------------------------------------------------------------------------------------------------ part 1b: numeric range lists
+// The pattern-string enumeration above reaches range lists of at most (maxlen-2) characters between the brackets, i.e. one short clause.  This part
+// enumerates the documented range-list GRAMMAR instead: [~] '<' clause (',' clause){0,2} '>' with every clause form (n, a-b, a-, -b, -) over a value set.
+static const unsigned RV[] = { 0, 1, 2, 3, 5, 10, 12, 20 };
+static const int NRV = 8;
+static std::vector<std::string> g_rangeClauses, g_rangeSubjects;
+static void BuildRangeTables()
+{
+   for (int a = 0; a < NRV; a++) g_rangeClauses.push_back(verif::Fmt("%u", RV[a]));
+   for (int a = 0; a < NRV; a++) for (int b = a; b < NRV; b++) g_rangeClauses.push_back(verif::Fmt("%u-%u", RV[a], RV[b]));
+   for (int a = 0; a < NRV; a++) g_rangeClauses.push_back(verif::Fmt("%u-", RV[a]));
+   for (int a = 0; a < NRV; a++) g_rangeClauses.push_back(verif::Fmt("-%u", RV[a]));
+   g_rangeClauses.push_back("-");
+   for (unsigned v = 0; v <= 25; v++) g_rangeSubjects.push_back(verif::Fmt("%u", v));
+   static const char * MORE[] = { "100", "4294967295", "05", "0012", "", "a", "a5", "-5", "<5>", "~5" };   // leading zeros; non-numbers are documented as "no match"
+   for (size_t i = 0; i < sizeof(MORE) / sizeof(MORE[0]); i++) g_rangeSubjects.push_back(MORE[i]);
+}
+static size_t RangeCount() { const size_t n = g_rangeClauses.size(); return 2 * (n + n * n + n * n * n); }
+static std::string RangePattern(size_t i)
+{
+   const size_t n = g_rangeClauses.size(); const bool neg = (i & 1) != 0; i >>= 1;
+   std::vector<size_t> cl;
+   if (i < n) cl.push_back(i);
+   else if ((i -= n) < n * n) { cl.push_back(i / n); cl.push_back(i % n); }
+   else { i -= n * n; cl.push_back(i / (n * n)); cl.push_back((i / n) % n); cl.push_back(i % n); }
+   std::string p = neg ? "~<" : "<";
+   for (size_t k = 0; k < cl.size(); k++) { if (k) p += ","; p += g_rangeClauses[cl[k]]; }
+   return p + ">";
+}
+static void RangeCase(size_t i, mutx::Case & c)
+{
+   const std::string pat = RangePattern(i);
+   const refmatch::Pattern ref = refmatch::Parse(pat);
+   if (!ref.inDomain || !ref.isRange) { c.Fail("harness:range-pattern-outside-reference", "generated range list " + verif::JStr(pat) + " is not accepted by the reference: " + ref.why); return; }
+   const std::string shape = Shape(pat);
+   StringMatcher A; const status_t stA = A.SetPattern(pat.c_str(), true);
+   StringMatcher B(DIRTY[(i >> 1) % 4]); const status_t stB = B.SetPattern(pat.c_str(), true);   // re-used object: held another range list / negation / regex / list before
+   if (stA.IsError() || stB.IsError()) { c.Fail("setpattern-rejected:" + shape, "well-formed pattern " + verif::JStr(pat) + " rejected: " + stA() + " / " + stB()); return; }
+   std::string bits(g_rangeSubjects.size(), '0'); uint64_t compared = 0;
+   for (size_t j = 0; j < g_rangeSubjects.size(); j++) {
+      const std::string & s = g_rangeSubjects[j];
+      const bool a = A.Match(s.c_str()), b = B.Match(s.c_str());
+      if (a) bits[j] = '1';
+      if (a != b && !c.failed) c.Fail("reuse-differs:Match:" + shape, "pattern " + verif::JStr(pat) + " subject " + verif::JStr(s) + verif::Fmt(": fresh object %d, re-used object %d", (int)a, (int)b));
+      if (refmatch::SubjectInDomain(ref, s)) {
+         const bool r = refmatch::Match(ref, s); compared++;
+         if (a != r && !c.failed) c.Fail("match-mismatch:" + shape + ((ref.ranges.size() > 1) ? ":multi-clause" : ""), "pattern " + verif::JStr(pat) + " subject " + verif::JStr(s) + verif::Fmt(": documented meaning says %s, Match() returned %s", r ? "match" : "no match", a ? "true" : "false"));
+      }
+   }
+   ADD(rangeRun, 1); ADD(rangeCompared, compared);
+   const verif::Hash128 h = verif::HashStr(bits);
+   c.Outcome(verif::Fmt("%016llx%016llx", (unsigned long long)h.a, (unsigned long long)h.b));
+}
+static std::string RangeDesc(size_t i) { return "{\"pattern\": " + verif::JStr(RangePattern(i)) + verif::Fmt(", \"subjects\": %llu}", (unsigned long long)g_rangeSubjects.size()); }
 
 // ------------------------------------------------------------------------------------------------ part 2: escape round trip
 static std::string EscapeSubject(size_t k) { return (k < g_subjects.size()) ? g_subjects[k] : StrOfIndex(k - g_subjects.size(), SIGMA_P, NP); }
@@ -192,6 +247,7 @@ int main(int argc, char ** argv)
         for (int b = 0; b < NSEGS; b++) { std::vector<std::string> v2 = v1; v2.push_back(SEGS[b]); g_segSubjects.push_back(v2);
            for (int d = 0; d < NSEGS; d++) { std::vector<std::string> v3 = v2; v3.push_back(SEGS[d]); g_segSubjects.push_back(v3); } } } }
 
+   BuildRangeTables();
    int maxlen = args.Thorough() ? 5 : 4; if (args.kv.count("maxlen")) maxlen = atoi(args.kv["maxlen"].c_str());
    if (args.kv.count("slice")) g_slice = atoi(args.kv["slice"].c_str()); if (g_slice < 1) g_slice = 1;
    const std::string suffix = (g_slice > 1) ? verif::Fmt("_s%d", g_slice) : "";
@@ -203,6 +259,7 @@ int main(int argc, char ** argv)
       const std::string part = d.Str("part"); g_slice = 1;
       mutx::Runner R(args, res, part); R.SetCpuLimit(20);
       if (part.find("patterns") == 0) return R.ReplayIndex((size_t)d.Int("index"), PatternCase, PatternDesc);
+      if (part.find("rangelists") == 0) return R.ReplayIndex((size_t)d.Int("index"), RangeCase, RangeDesc);
       if (part.find("escape") == 0) return R.ReplayIndex((size_t)d.Int("index"), EscapeCase, EscapeDesc);
       if (part.find("segmented") == 0) return R.ReplayIndex((size_t)d.Int("index"), SegCase, SegDesc);
       fprintf(stderr, "unknown part %s\n", part.c_str()); return 3;
@@ -224,6 +281,14 @@ int main(int argc, char ** argv)
       p.extra["patterns_flagged_unique"] = verif::Fmt("%llu", (unsigned long long)g_cnt->uniquePatterns);
       p.extra["patterns_flagged_unique_value_list"] = verif::Fmt("%llu", (unsigned long long)g_cnt->uvPatterns);
       if (g_slice > 1) { p.exhaustive = false; if (p.cap.empty()) p.cap = verif::Fmt("systematic 1-in-%d slice of the pattern space (the full product runs in the other flavour)", g_slice); }
+   }
+   if (args.WantPart("rangelists") && g_slice == 1) {
+      mutx::Runner R(args, res, "rangelists"); R.SetCpuLimit(20); R.SetDeadline(args.t0 + T * 0.85);
+      verif::Part & p = R.Run(RangeCount(), RangeCase, RangeDesc);
+      p.rule = verif::Fmt("one case per numeric range-list pattern of the documented grammar [~]<clause(,clause){0,2}>: every sequence of 1..3 clauses from ALL %llu clauses of the forms n, a-b (a<=b), a-, -b, - over the values {0 1 2 3 5 10 12 20}, with and without a leading ~; set on a fresh StringMatcher and on one that previously held a different kind of pattern; matched against %llu subjects (0..25, 100, 2^32-1, numbers with leading zeros, the empty string and non-numbers); Match() compared with ref/refmatch.h (integer inside one of the clauses; a missing bound means 0 / no limit; a non-number never matches; ~ inverts)",
+                         (unsigned long long)g_rangeClauses.size(), (unsigned long long)g_rangeSubjects.size());
+      p.bound_completed = p.exhaustive ? 3 : -1;
+      p.states = g_cnt->rangeRun; p.transitions = g_cnt->rangeCompared; p.evaluations = g_cnt->rangeCompared;
    }
    if (args.WantPart("escape")) {
       mutx::Runner R(args, res, "escape" + suffix); R.SetCpuLimit(20); R.SetDeadline(args.t0 + T * 0.95);
